@@ -69,77 +69,10 @@ func c10(c *Ctx) {
 	// R2 check-then-act atomic
 	c.Rule("R2", "E1 atomic section", "in End the isRecording() test and the store to endTime are in one critical section of s.mu on every path", 1)
 	g := ix.FG(end)
-	recEdgeTrue := func(e *GEdge) bool {
-		return edgeImplies(e, func(cnd ast.Expr, pol int) bool {
-			call, ok := cnd.(*ast.CallExpr)
-			if !ok || pol < 0 {
-				return false
-			}
-			f := callee(info, call)
-			return f != nil && f.Origin() == isRec.Obj.Origin()
-		})
-	}
 	stores := g.Match(func(n ast.Node) bool {
 		return assignRHS(n, func(e ast.Expr) bool { return isField(info, e, fEnd) }) != nil
 	})
-	if len(stores) == 0 {
-		c.Violation("R2", "sdk/trace|(*recordingSpan).End|isRecording → endTime store atomic", at(ix.M, end.Pos()), "End does not store endTime")
-	}
-	recv := end.Recv()
-	muKey := varKey(recv) + resolvePath(ix.Pkg, "recordingSpan", ".mu")
-	nAtomic := 0
-	var firstRel *GNode
-	for _, x := range g.Nodes {
-		for _, e := range x.Succs {
-			if !recEdgeTrue(e) {
-				continue
-			}
-			nAtomic++
-			for _, st := range stores {
-				// releases on paths from the edge to the store
-				seen, _ := g.ReachFromEdge(e, func(y *GNode) bool { return y == st })
-				for y := range seen {
-					if y.N == nil {
-						continue
-					}
-					if _, isDefer := y.N.(*ast.DeferStmt); isDefer {
-						continue
-					}
-					// only count if st is reachable from y
-					r2, _ := g.Reach([]*GNode{y}, nil, nil)
-					if !r2[st] {
-						continue
-					}
-					inspectNoLit(y.N, func(n ast.Node) bool {
-						if call, ok := n.(*ast.CallExpr); ok {
-							if k, op := lockOp(info, call); k == muKey && op == "unlock" {
-								if firstRel == nil || y.N.Pos() < firstRel.N.Pos() {
-									firstRel = y
-								}
-							}
-						}
-						return true
-					})
-				}
-			}
-		}
-	}
-	key := "sdk/trace|(*recordingSpan).End|isRecording → endTime store atomic"
-	switch {
-	case nAtomic == 0:
-		c.Violation("R2", key, at(ix.M, end.Pos()), "End does not test isRecording() before ending the span: a second End would end it again")
-	case firstRel != nil:
-		c.Violation("R2", key, at(ix.M, firstRel.N.Pos()), "s.mu is released between the isRecording() test and the store to endTime: two concurrent End calls can both pass the test and both deliver OnEnd")
-	default:
-		// the store must also hold the lock
-		ok := true
-		for _, st := range stores {
-			if !le.Held(end)[st][muKey] {
-				ok = false
-			}
-		}
-		c.Check(ok, "R2", key, at(ix.M, end.Pos()), "test and store are in one critical section", "endTime is stored without s.mu")
-	}
+	ruleEndAtomic(c, ix, le, "R2")
 
 	// R3 End order, fan-out outside the lock
 	c.Rule("R3", "E3 ordering + total fan-out + E1 not-under-lock", "End: endTime store → unlock → snapshot() once → total loop calling OnEnd(snapshot); no SpanProcessor/SpanExporter method runs while a span mutex may be held", 4)
@@ -486,4 +419,91 @@ func (ix *PkgIndex) freshSliceD(f *FuncInfo, e ast.Expr, depth int) bool {
 		return true
 	})
 	return ok && seenDef
+}
+
+// ruleEndAtomic: in End the isRecording() test and the store to endTime are one critical section of s.mu on every path — two
+// concurrent End calls cannot both pass the test. Shared by C10.R2 ("ends exactly once") and C04.R10 ("calls made after End
+// change nothing": a second End that slips through overwrites endTime and exports the span again).
+func ruleEndAtomic(c *Ctx, ix *PkgIndex, le *LockEngine, rule string) {
+	info := ix.Pkg.TypesInfo
+	end := c.Fn(ix, rule, "(*recordingSpan).End")
+	fEnd := lookupField(ix.Pkg, "recordingSpan", "endTime")
+	isRec := ix.Func("(*recordingSpan).isRecording")
+	if end == nil || fEnd == nil || isRec == nil {
+		c.Missing(rule, "sdk/trace recordingSpan.End/endTime/isRecording")
+		return
+	}
+	g := ix.FG(end)
+	recEdgeTrue := func(e *GEdge) bool {
+		return edgeImplies(e, func(cnd ast.Expr, pol int) bool {
+			call, ok := cnd.(*ast.CallExpr)
+			if !ok || pol < 0 {
+				return false
+			}
+			f := callee(info, call)
+			return f != nil && f.Origin() == isRec.Obj.Origin()
+		})
+	}
+	stores := g.Match(func(n ast.Node) bool {
+		return assignRHS(n, func(e ast.Expr) bool { return isField(info, e, fEnd) }) != nil
+	})
+	if len(stores) == 0 {
+		c.Violation(rule, "sdk/trace|(*recordingSpan).End|isRecording → endTime store atomic", at(ix.M, end.Pos()), "End does not store endTime")
+	}
+	recv := end.Recv()
+	muKey := varKey(recv) + resolvePath(ix.Pkg, "recordingSpan", ".mu")
+	nAtomic := 0
+	var firstRel *GNode
+	for _, x := range g.Nodes {
+		for _, e := range x.Succs {
+			if !recEdgeTrue(e) {
+				continue
+			}
+			nAtomic++
+			for _, st := range stores {
+				// releases on paths from the edge to the store
+				seen, _ := g.ReachFromEdge(e, func(y *GNode) bool { return y == st })
+				for y := range seen {
+					if y.N == nil {
+						continue
+					}
+					if _, isDefer := y.N.(*ast.DeferStmt); isDefer {
+						continue
+					}
+					// only count if st is reachable from y
+					r2, _ := g.Reach([]*GNode{y}, nil, nil)
+					if !r2[st] {
+						continue
+					}
+					inspectNoLit(y.N, func(n ast.Node) bool {
+						if call, ok := n.(*ast.CallExpr); ok {
+							if k, op := lockOp(info, call); k == muKey && op == "unlock" {
+								if firstRel == nil || y.N.Pos() < firstRel.N.Pos() {
+									firstRel = y
+								}
+							}
+						}
+						return true
+					})
+				}
+			}
+		}
+	}
+	key := "sdk/trace|(*recordingSpan).End|isRecording → endTime store atomic"
+	switch {
+	case nAtomic == 0:
+		c.Violation(rule, key, at(ix.M, end.Pos()), "End does not test isRecording() before ending the span: a second End would end it again")
+	case firstRel != nil:
+		c.Violation(rule, key, at(ix.M, firstRel.N.Pos()), "s.mu is released between the isRecording() test and the store to endTime: two concurrent End calls can both pass the test and both deliver OnEnd")
+	default:
+		// the store must also hold the lock
+		ok := true
+		for _, st := range stores {
+			if !le.Held(end)[st][muKey] {
+				ok = false
+			}
+		}
+		c.Check(ok, rule, key, at(ix.M, end.Pos()), "test and store are in one critical section", "endTime is stored without s.mu")
+	}
+
 }
